@@ -25,7 +25,7 @@ PROP = "C20"
 LEVEL = "exploration"
 TIERS = {
     "quick": dict(runs=1000, timeout=300, max_exchanges=10, shrink_seconds=120, shrink_steps=250),
-    "thorough": dict(runs=40000, timeout=600, max_exchanges=30, shrink_seconds=400, shrink_steps=800),
+    "thorough": dict(runs=25000, timeout=600, max_exchanges=30, shrink_seconds=400, shrink_steps=800),
 }
 
 MODES = ["server", "diffweb", "difftool", "mergeweb", "mergeweb_out", "mergetool"]
